@@ -65,6 +65,14 @@ func sidEncode(auth uint64, subs []uint32) []byte {
 func dnEscape(v string) string {
 	var sb strings.Builder
 	for i := 0; i < len(v); i++ {
+		// control characters the way Active Directory renders them: backslash and two hexadecimal digits ("\\0A")
+		// (Spec/C16.v escape_hx with hx c := c < 32)
+		if v[i] < 0x20 {
+			sb.WriteByte('\\')
+			sb.WriteByte("0123456789ABCDEF"[v[i]>>4])
+			sb.WriteByte("0123456789ABCDEF"[v[i]&15])
+			continue
+		}
 		switch v[i] {
 		case ',', '\\', '+', '"', '<', '>', ';', '=':
 			sb.WriteByte('\\')
@@ -146,6 +154,22 @@ func genC16(c *Ctx) {
 				if r.Intn(6) == 0 {
 					val += ",DC=evil"
 				}
+				// values ending in (or containing) a hex-escaped control character, a backslash or a comma: the escape
+				// sequence then stands directly before the separating comma
+				switch r.Intn(8) {
+				case 0:
+					val += "\n"
+				case 1:
+					val += "\r"
+				case 2:
+					val += "\r\n"
+				case 3:
+					val = "a\nCNF:" + val
+				case 4:
+					val += "\\"
+				case 5:
+					val += ","
+				}
 			}
 			rs = append(rs, L(S(attr), S(val)))
 			parts = append(parts, attr+"="+dnEscape(val))
@@ -157,7 +181,16 @@ func genC16(c *Ctx) {
 	for rep := 0; rep < c.N(300, 5000); rep++ {
 		c.Case("dn.domain", S(r.StringOver("DC=,\\a.b", r.Intn(24))))
 	}
-	for _, s := range []string{"", ",", "DC=", "DC=a", "DC=a,", "DC=a,DC=", "\\", "DC=a\\", "DC=a\\,DC=b", "CN=x\\\\,DC=b", "DC=.,DC=."} {
+	// raw strings built from tokens (escapes of every form next to separators and DC prefixes)
+	toks := []string{"DC=", "DC=", "CN=", ",", ",", "\\", "\\,", "\\\\", "\\0A", "\\0D", "\\2C", "\\5C", "\\ab", "a", "b", "0", "D", ".", "=", "dc=", " "}
+	for rep := 0; rep < c.N(400, 6000); rep++ {
+		var sb strings.Builder
+		for i, n := 0, r.Intn(10); i < n; i++ {
+			sb.WriteString(toks[r.Intn(len(toks))])
+		}
+		c.Case("dn.domain", S(sb.String()))
+	}
+	for _, s := range []string{"CN=j\\0D,DC=example,DC=com", "OU=S\\0A,DC=corp,DC=example,DC=com", "CN=a\\2C,DC=x", "CN=a\\5C,DC=x", "CN=a\\\\,DC=x", "CN=a\\,DC=x,DC=y", "DC=a", "DC=a,", "DC=a,DC=", "\\", "DC=a\\", "DC=a\\,DC=b", "CN=x\\\\,DC=b", "DC=.,DC=."} {
 		c.Case("dn.domain", S(s))
 	}
 }
